@@ -390,8 +390,10 @@ def minimise(case, signature):
 
 
 RULE = ("seeded cube workloads as in C16 but with 1-24 sub-cubes (quick: up to 12), both cube types, 1-3 aggregates; "
-        "per workload: serial fault-free run; a raise at EVERY callback invocation index with an Exception and with "
-        "a BaseException subclass (exhaustive per cube); pooled fault-free run, singleton raises (all in the thorough "
+        "per workload: serial fault-free run; a raise at EVERY callback invocation index with a subclass of an Exception "
+        "family drawn per plan (Exception, RuntimeError, ValueError, KeyError, OSError, TypeError, ArithmeticError, "
+        "AssertionError, IndexError, TimeoutError, AttributeError, InterruptedError) and with a BaseException subclass "
+        "(exhaustive per cube); pooled fault-free run, singleton raises (all in the thorough "
         "tier, <= 6 sampled in the quick tier when k > 6) and the subsets all / last / random / first-of-every-chunk, "
         "each under a seeded schedule and pool size 1-16; every faulty run is followed by a recovery calculate on the "
         "same cube and aggregate objects (serial or pooled) compared bit for bit with a fresh evaluation. "
